@@ -13,7 +13,7 @@
    constraint violations.  What the faithful model REFUTES is stated as `..._refuted` with its witness. *)
 From Coq Require Import List String ZArith Bool.
 From Cog Require Import Model.IR Model.Json Model.Builders Model.BuildersEq Model.Spec16 Model.GoSem Model.GoSemSpec08
-  Model.BuilderEval Model.PyBuilderEval Model.BuilderSpec Proofs.BuilderEvalProofs.
+  Model.BuilderEval Model.PyBuilderEval Model.BuilderSpec Proofs.BuilderEvalProofs Proofs.BuilderEvalProofs2.
 Import ListNotations.
 Local Open Scope string_scope.
 
@@ -236,3 +236,80 @@ Example c09_nonvacuous :
   builder_eval c09_env "p" "Inner" [] [("id", [BJson (JNum 1 0)])]
     = GOk (mkBState (GStruct [("id", GInt 1)]) [], BRErr ["id"]).
 Proof. vm_compute. repeat split. Qed.
+
+
+(* ---- options that take a nested builder (the positive half of C09-go-nested-builder-error-dropped) ---- *)
+
+(* what a nested builder expression evaluates to: the object its Build() returns, or AErr when Build() fails *)
+Theorem nested_program_value : forall f' e t p n ctor calls b cargs st0 st,
+  locate_builder (be_builders e) p n = Some b ->
+  List.length ctor = List.length (ct_args (b_ctor b)) ->
+  omapM (fun ta => go_arg f' e (a_type (fst ta)) (snd ta)) (combine (ct_args (b_ctor b)) ctor) = GOk cargs ->
+  go_new_builder e b cargs = GOk st0 ->
+  go_run f' e b st0 calls = GOk st ->
+  go_arg (S f') e t (BBuild p n ctor calls) =
+    GOk (match go_build e b (last_state (st0 :: st)) with BROk v => AVal v | BRErr _ => AErr end).
+Proof. exact go_arg_of_nested_program_proof. Qed.
+Print Assumptions nested_program_value.
+
+(* the nested Build() succeeded with w: the option sets exactly its field to w (behind a pointer when the field
+   is nullable), builder.errors is unchanged *)
+Theorem nested_builder_success : forall e f o st fs old a p nm w,
+  struct_field_to_option f = Ok o -> f_name f <> "" ->
+  f_type f = TRef a p nm -> type_has_builder e (f_type f) = true ->
+  bs_obj st = GStruct fs -> gmap_find fs (f_name f) = Some old ->
+  exists fs', go_option e o st [AVal w] = GOk (mkBState (GStruct fs') (bs_errors st)) /\
+              gmap_find fs' (f_name f) = Some (maybe_ptr (f_type f) w) /\
+              (forall g, g <> f_name f -> gmap_find fs' g = gmap_find fs g) /\
+              map fst fs' = map fst fs.
+Proof. exact go_nested_builder_success_proof. Qed.
+Print Assumptions nested_builder_success.
+
+(* the nested Build() failed: the object is left as it was, the field's path is recorded in builder.errors,
+   and Build() answers what it would have answered without the call *)
+Theorem nested_builder_failure : forall e b f o st a p nm,
+  struct_field_to_option f = Ok o ->
+  f_type f = TRef a p nm -> type_has_builder e (f_type f) = true ->
+  go_option e o st [AErr] = GOk (mkBState (bs_obj st) (bs_errors st ++ [f_name f])) /\
+  go_build e b (mkBState (bs_obj st) (bs_errors st ++ [f_name f])) = go_build e b st.
+Proof. exact go_nested_builder_failure_proof. Qed.
+Print Assumptions nested_builder_failure.
+
+(* ---- veneered options: a path of length 2 behind a nil check (struct_fields_as_options / _as_arguments,
+   add_option, add_assignment) ---- *)
+
+(* Go: the prefix field holds `mid` = what was there, or the guard's empty value (New<T>() / &T{}) when it was
+   nil; inside it exactly the target field changes and holds the argument; every other top-level field is
+   untouched; builder.errors is unchanged *)
+Theorem option_sets_exactly_target_depth2 : forall e env st fs it1 it2 arg cs nct v x1 mid inner0 old,
+  plain_item it1 -> plain_item it2 ->
+  bs_obj st = GStruct fs -> gmap_find fs (pi_id it1) = Some x1 ->
+  arg_value e env arg = GOk (Some v) ->
+  (if is_nil x1 then go_empty_value e (non_null nct) = GOk mid else mid = x1) ->
+  (mid = GPtr (GStruct inner0) \/ mid = GStruct inner0) ->
+  gmap_find inner0 (pi_id it2) = Some old ->
+  exists fs' inner',
+    go_assignment e env st (mkAssignment [it1; it2] (AValue (Some arg) DNil None) "direct" cs [mkNilCheck [it1] nct])
+      = GOk (mkBState (GStruct fs') (bs_errors st), true) /\
+    gmap_find fs' (pi_id it1) = Some (match mid with GPtr _ => GPtr (GStruct inner') | _ => GStruct inner' end) /\
+    gmap_find inner' (pi_id it2) = Some (maybe_ptr (pi_type it2) v) /\
+    (forall g, g <> pi_id it2 -> gmap_find inner' g = gmap_find inner0 g) /\
+    (forall g, g <> pi_id it1 -> gmap_find fs' g = gmap_find fs g).
+Proof. exact go_depth2_assignment_proof. Qed.
+Print Assumptions option_sets_exactly_target_depth2.
+
+Theorem option_sets_exactly_target_depth2_python : forall e env fs it1 it2 arg nct v x1 inner0 old,
+  plain_item it1 -> plain_item it2 ->
+  gmap_find fs (pi_id it1) = Some x1 ->
+  py_arg_value env arg = GOk v ->
+  (if is_nil x1 then py_empty_value e nct = GOk (GStruct inner0) else GStruct inner0 = x1) ->
+  gmap_find inner0 (pi_id it2) = Some old ->
+  exists fs' inner',
+    py_assignment e env (GStruct fs) (mkAssignment [it1; it2] (AValue (Some arg) DNil None) "direct" [] [mkNilCheck [it1] nct])
+      = GOk (GStruct fs') /\
+    gmap_find fs' (pi_id it1) = Some (GStruct inner') /\
+    gmap_find inner' (pi_id it2) = Some v /\
+    (forall g, g <> pi_id it2 -> gmap_find inner' g = gmap_find inner0 g) /\
+    (forall g, g <> pi_id it1 -> gmap_find fs' g = gmap_find fs g).
+Proof. exact py_depth2_assignment_proof. Qed.
+Print Assumptions option_sets_exactly_target_depth2_python.
